@@ -394,6 +394,9 @@ func (s *Schema) SDL() string {
 func (s *Schema) RootTypes() (q, m, sub string) {
 	explicit := false
 	for _, b := range s.Blocks {
+		if b.Extend {
+			continue // an extension of the implicit schema does not make it explicit: handled below
+		}
 		if b.Query != "" || b.Mutation != "" || b.Subscription != "" {
 			explicit = true
 		}
@@ -416,6 +419,20 @@ func (s *Schema) RootTypes() (q, m, sub string) {
 		}
 		if s.Def("Subscription") != nil {
 			sub = "Subscription"
+		}
+	}
+	for _, b := range s.Blocks {
+		if !b.Extend {
+			continue
+		}
+		if b.Query != "" {
+			q = b.Query
+		}
+		if b.Mutation != "" {
+			m = b.Mutation
+		}
+		if b.Subscription != "" {
+			sub = b.Subscription
 		}
 	}
 	return
@@ -450,11 +467,17 @@ func (s *Schema) Merged() *Schema {
 		t.Dirs = append(t.Dirs, c.Dirs...)
 	}
 	var blk *SchemaBlock
+	declared := false // a schema block proper exists; extensions alone extend the implicit schema and stay extensions
+	for _, b := range s.Blocks {
+		if !b.Extend {
+			declared = true
+		}
+	}
 	for _, b := range s.Blocks {
 		if blk == nil {
 			nb := *b
 			nb.Dirs = cloneDirs(b.Dirs)
-			nb.Extend = false
+			nb.Extend = !declared
 			blk = &nb
 			continue
 		}
